@@ -1,1 +1,36 @@
-fn main() {}
+//! Font oracles: `voracle <cmd> [args]`; prints one JSON object per evaluated font on stdout.
+use std::io::Write;
+
+use serde_json::json;
+use vharness::eval;
+
+fn main() {
+    let args: Vec<String> = std::env::args().collect();
+    let cmd = args.get(1).map(|s| s.as_str()).unwrap_or("");
+    let out = std::io::stdout();
+    let mut out = out.lock();
+    match cmd {
+        // c05 <font>... : container + cross-table consistency
+        "c05" => {
+            for p in &args[2..] {
+                let v = match std::fs::read(p) {
+                    Ok(data) => {
+                        let r = std::panic::catch_unwind(|| eval::xref::check(&data));
+                        match r {
+                            Ok(rep) => json!({"font": p, "errors": rep.errors, "tables": rep.tables, "nodes": rep.nodes_walked,
+                                "num_glyphs": rep.num_glyphs, "glyph_ids_checked": rep.glyph_ids_checked, "name_ids_checked": rep.name_ids_checked,
+                                "indices_checked": rep.indices_checked, "composites": rep.composites, "max_depth": rep.max_depth}),
+                            Err(_) => json!({"font": p, "errors": ["oracle panicked while walking the font"], "tables": []}),
+                        }
+                    }
+                    Err(e) => json!({"font": p, "io_error": e.to_string()}),
+                };
+                writeln!(out, "{v}").unwrap();
+            }
+        }
+        _ => {
+            eprintln!("usage: voracle c05 <font>...");
+            std::process::exit(2);
+        }
+    }
+}
